@@ -18,7 +18,12 @@ import (
 // Rng is splitmix64: every random choice of a run derives from VERIF_SEED.
 type Rng struct{ s uint64 }
 
-func NewRng(seed uint64) *Rng { return &Rng{s: seed*0x9E3779B97F4A7C15 + 0x1234567} }
+func NewRng(seed uint64) *Rng {
+	// mix the seed first: with s = seed*gamma consecutive seeds would yield shifted copies of one sequence
+	r := &Rng{s: seed ^ 0xD1B54A32D192ED03}
+	a, b := r.U64(), r.U64()
+	return &Rng{s: a ^ (b << 1) ^ (seed * 0xA24BAED4963EE407)}
+}
 func (r *Rng) U64() uint64 {
 	r.s += 0x9E3779B97F4A7C15
 	z := r.s
